@@ -113,6 +113,8 @@ def c02_transition(ctx: Ctx) -> List[Violation]:
     for b in ctx.post.bases.values():
         if b.total_stalls - b.available_stalls >= 2:
             ctx.cov["c02:two_holders"] += 1
+    if any(e[0] in ("P", "T") for e in ctx.events) and any(sname(v) == "ChargeQueueing" for v in ctx.pre.vehicles.values()):
+        ctx.cov["c02:counters_rewritten_while_queued"] += 1  # a tariff row / a re-rating lands while a vehicle waits in a queue
     bad = c02_state(ctx.post)
     if not bad:
         return []
